@@ -242,7 +242,9 @@ Definition init (cfg : list (bool * list action)) : sys :=
 (* ------------------------------------------------------------------ part 3: the run task *)
 
 Inductive rin :=
-| RReq (st : status)   (* some Shutdown clone sends st (the timeout task: TimedOut, internet.rs:66-68) *)
+| RReq (st : status)   (* some Shutdown clone sends st: shut_down() is RReq Exited (shutdown.rs:31-36),
+                          shut_down_with_status(st) is RReq st (:38-43), the timeout task RReq TimedOut;
+                          BOTH record themselves in Shutdown.first before the send *)
 | RJoined              (* every Machine::start handle joined (internet.rs:77-81) *)
 | RClosed              (* the last Shutdown sender was dropped *)
 | RPoll                (* the run task is polled *)
